@@ -38,4 +38,40 @@ def run_mutants(rep, pid, mutants, analyse):
                             reported=[(o['rule'], o['instance']) for o in viol][:4], broken=sub.broken[:2]))
         rep.control('mutant:' + m.name, bool(hit), '' if hit else 'mutant survived (%s)' % (sub.broken[:1] or 'no violation reported'))
     rep.extra['mutants'] = results
+    if rep.tier == 'thorough':
+        neutral_edits(rep, pid, sorted({m.rel for m in mutants}), analyse)
     return results
+
+
+NEUTRAL_HEADER = '// verification: behaviour-preserving edit (shifts every line of this file)\n\n\n'
+
+
+def neutral_edits(rep, pid, files, analyse):
+    """negative controls: a behaviour-preserving edit (three lines inserted at the top of each file a mutant touches, so that every
+    construct moves) must raise neither a violation nor analysis-broken, and must leave the set of instance keys unchanged -- a rule
+    keyed on positions or frozen text would show up here, on every thorough run"""
+    base = {(o['rule'], o['instance']) for o in rep.obligations}
+    out = []
+    for rel in files:
+        try:
+            content = facts.read_repo(rel)
+        except OSError:
+            continue
+        sub = Report(pid, rep.tier)
+        sub.known = []
+        with facts.Overlay({rel: NEUTRAL_HEADER + content}):
+            try:
+                analyse(sub)
+            except facts.Broken as e:
+                sub.analysis_broken(str(e))
+        known = {(k['rule'], k['instance']) for k in rep.known} if hasattr(rep, 'known') and rep.known and isinstance(rep.known[0], dict) else set()
+        viol = [o for o in sub.obligations if not o['ok'] and (o['rule'], o['instance']) not in known
+                and (o['rule'], o['instance']) not in {(b['rule'], b['instance']) for b in rep.obligations if not b['ok']}]
+        keys = {(o['rule'], o['instance']) for o in sub.obligations}
+        drift = sorted(base ^ keys)[:3]
+        ok = not viol and not sub.broken and not drift
+        out.append(dict(file=rel, silent=ok, violations=[(o['rule'], o['instance']) for o in viol][:3], broken=sub.broken[:2], key_drift=drift))
+        if not ok:
+            rep.analysis_broken('a behaviour-preserving edit of %s changed the verdict: violations %s, broken %s, instance-key drift %s' % (
+                rel, [(o['rule'], o['instance']) for o in viol][:2], sub.broken[:1], drift))
+    rep.extra['neutral_edits'] = out
